@@ -16,7 +16,7 @@ import (
 )
 
 func init() {
-	register("C18", checkC18, "R18.1: the classifier's function-code table (constant-folded by the type checker) equals the specification's ten codes, the FunctionCode() constants of the request types and the case constants of all four dispatchers; inside the classifier the table is scanned completely and success is returned exactly on an element equal to the frame's function byte. R18.2: on every accepting return the expected length is the affine form 6 + BE16(frame[4:6]). R18.3: the too-short verdict is returned exactly for len < 8; the classifier is then abstractly interpreted on the symbolic buffer written by each of the ten TCP request encoders (under the constructor's success state) for every prefix length p with 8 <= p <= L: every rejecting return must be infeasible and the expected length must equal the encoder's buffer length L. R18.4: the unsupported-function error carries transaction id, unit id and function from the frame and exception code 1. R18.5 (what it accepts never panics in the dispatcher) is C10.")
+	register("C18", checkC18, "R18.1: the classifier's function-code table (constant-folded by the type checker) equals the specification's ten codes, the FunctionCode() constants of the request types and the case constants of all four dispatchers; inside the classifier the table is scanned completely and success is returned exactly on an element equal to the frame's function byte. R18.2: on every accepting return the expected length is the affine form 6 + BE16(frame[4:6]). R18.3: the too-short verdict is returned exactly for len < 8; the classifier is then abstractly interpreted on the symbolic buffer written by each of the ten TCP request encoders (under the constructor's success state) for every prefix length p with 8 <= p <= L: every rejecting return must be infeasible and the expected length must equal the encoder's buffer length L. R18.4: the unsupported-function error carries transaction id, unit id and function from the frame and exception code 1. R18.5 (what it accepts never panics in the dispatcher) is C10. R18.6 what the dispatcher rejects is an addressed exception (C16 R16.2). R18.7 every TCP request encoder emits protocol id 0 for any struct contents (C01 R1.5). R18.8 the classifier's verdict depends on the first 8 bytes only (C15 R15.6).")
 }
 
 // globalArrayConsts returns the constant elements of a package-level array variable's
